@@ -122,7 +122,7 @@ def run(ck):
     # beyond the exhaustive oracle: 8-11 items into 3-5 bins, judged against a WITNESS partition that TLC checks itself (JWit): a result worse than
     # the witness is not optimal, whatever the optimum is
     wg = []
-    for i, g in enumerate(gen.witness_family(ck.rng, 7000 if q else 60000)):
+    for i, g in enumerate(gen.witness_family(ck.rng, 7000 if q else 30000)):
         n, k = len(g["vals"]), g["k"]
         cs = [call("rnp", "dict"), call("snp", "dict"), call("cg", "dict", o="diff", sw="1101")]
         if k <= 4 or n <= 8:
